@@ -630,6 +630,12 @@ func corpus(dir string, tr *hx.Trace) {
 			continue
 		}
 
+		var fc FCase
+		if json.Unmarshal(b, &fc) == nil && len(fc.Ops) > 0 {
+			runFull("corpus:"+filepath.Base(f), fc, tr)
+			continue
+		}
+
 		var c struct {
 			Ops []Op `json:"ops"`
 		}
@@ -665,6 +671,28 @@ func main() {
 		if json.Unmarshal(b, &cc) == nil && cc.Case.Conc != nil {
 			runConc("replay", *cc.Case.Conc, tr)
 			return
+		}
+
+		var fr struct {
+			Case struct {
+				FCase
+				Conc3 *Conc3Case `json:"conc3"`
+			} `json:"case"`
+			FCase
+		}
+
+		if json.Unmarshal(b, &fr) == nil {
+			switch {
+			case fr.Case.Conc3 != nil:
+				runConc3("replay", *fr.Case.Conc3, tr)
+				return
+			case len(fr.Case.Ops) > 0:
+				runFull("replay", fr.Case.FCase, tr)
+				return
+			case len(fr.Ops) > 0:
+				runFull("replay", fr.FCase, tr)
+				return
+			}
 		}
 
 		var c struct {
@@ -762,4 +790,7 @@ func main() {
 		r := rng.Fork(uint64(1_000_000 + i))
 		runHistory("async", randomHistory(r, full, 3+r.Intn(8), true), tr)
 	}
+
+	// wave 5: the document-level model
+	fullGenerators(rng, args.Tier, tr)
 }
